@@ -70,6 +70,9 @@ func (cs *c15Case) produce(withMeta bool) ([]byte, error, string) {
 	if strings.HasSuffix(cs.Kind, "-alpha") {
 		alpha = "agradient"
 	}
+	if strings.HasSuffix(cs.Kind, "-alpha-exact") {
+		alpha = "binary" // many fully transparent pixels with colour underneath, kept by Exact
+	}
 	src := imgs.Make(17, 9, "noise", alpha, cs.Seed)
 	if strings.HasPrefix(cs.Kind, "anim") {
 		var out []byte
@@ -110,6 +113,7 @@ func (cs *c15Case) produce(withMeta bool) ([]byte, error, string) {
 	}
 	o := webp.DefaultOptions()
 	o.Lossless = strings.HasPrefix(cs.Kind, "lossless")
+	o.Exact = strings.HasSuffix(cs.Kind, "-exact")
 	if withMeta {
 		if cs.ICC != "absent" {
 			o.ICC = icc
@@ -229,11 +233,11 @@ var _ image.Image
 
 func init() {
 	registerCases[c15Case]("C15", "exploration",
-		"full product of blob alphabet {absent, nil, empty, 1, 2, 3 bytes, chunk-look-alike, 4095, 4096, 65537 bytes} for each of ICC, EXIF, XMP x 6 output kinds (lossy, lossless, lossy+alpha, lossless+alpha, 1-frame and 2-frame AnimEncoder); blobs read back byte-exact via riffwalk, mux.GetChunk and animation.DecodeBytes; flags = chunk presence; bitstream/ALPH payloads and decoded pixels identical to the no-metadata output",
+		"full product of blob alphabet {absent, nil, empty, 1, 2, 3 bytes, chunk-look-alike, 4095, 4096, 65537 bytes} for each of ICC, EXIF, XMP x 8 output kinds (lossy, lossless, lossy+alpha, lossless+alpha, both again with Exact on a picture with colour under transparent pixels, 1-frame and 2-frame AnimEncoder); blobs read back byte-exact via riffwalk, mux.GetChunk and animation.DecodeBytes; flags = chunk presence; bitstream/ALPH payloads and decoded pixels identical to the no-metadata output",
 		[]string{"worker count pinned to 1, pools never reuse"},
 		nil,
 		func(e *fw.Env) func(c *choice.Ctx) caseI {
-			kinds := []string{"lossy", "lossless", "lossy-alpha", "lossless-alpha", "anim1", "anim2"}
+			kinds := []string{"lossy", "lossless", "lossy-alpha", "lossless-alpha", "lossy-alpha-exact", "lossless-alpha-exact", "anim1", "anim2"}
 			names := c15BlobNames
 			if e.Quick() {
 				names = []string{"absent", "nil", "empty", "b1", "b2", "chunklike", "b4095"}
